@@ -82,6 +82,11 @@ Ltac py_eval H :=
 
 (* order facts for whatever sorted()/searchsorted() terms are around *)
 Ltac list_facts :=
+  (* a case split on `sorted(values)` (values[0] / values[-1] evaluated before the searchsorted test) has replaced the
+     sorted list by its head and tail in the other facts: put it back *)
+  repeat match goal with
+  | Es : zsort ?vs = ?h :: ?r, E : context [zcount _ (?h :: ?r)] |- _ => rewrite <- Es in E
+  end;
   repeat match goal with
   | H : zmem ?a ?l = true |- _ => apply zmem_In in H
   | H : zmem ?a ?l = false |- _ =>
